@@ -74,7 +74,10 @@ def rule_split_table(ctx):
     ctx.instance("ident-only")
     if "c.ident().filter(|(_,c)|c.eof()||punct(',')(*c).is_some())" not in t or t.count("Self::Ident(") != 1:
         ctx.report("split:ident-only", w, "`Expr::Ident` is no longer produced only for an argument consisting of a single identifier (followed by `,` or the end)", {})
-    # termination / failure of the helpers
+    _scanner_progress(ctx)
+
+
+def _scanner_progress(ctx):
     bp = A.get_fn(ctx.files, PARSING, "balanced_pair")
     bt = A.fn_text(bp)
     ctx.instance("balanced_pair:fails-at-eof")
@@ -102,6 +105,12 @@ def rule_split_table(ctx):
     ctx.instance("path_sep")
     if "seq([&mut punct_with_spacing(':',Spacing::Joint),&mut punct(':')])(c)" not in A.fn_text(ps_):
         ctx.report("split:path_sep", ctx.where(ps_.file, ps_.node), "`path_sep` is no longer a joint `:` followed by `:`", {})
+
+
+
+def rule_scanner_progress(ctx):
+    """SCAN-PROGRESS: the argument scanner's loops (`balanced_pair`, `take_until1`) advance the cursor in every iteration, fail at the end of input instead of running on, and `path_sep` is a joint `::`."""
+    _scanner_progress(ctx)
 
 
 def _inline_cond(ctx, fn, e, depth=0):
